@@ -10,6 +10,13 @@ Theorem C06_flags_only_for_failures : forall p c k fl,
 Proof. exact flags_only_for_failures_proof. Qed.
 Print Assumptions C06_flags_only_for_failures.
 
+(* ... and every failing constraint has one (a constraint that cannot apply to a field of this type flags all
+   its records) *)
+Theorem C06_flags_for_every_failure : forall p c k,
+  verify p (Some c) k = false -> flags_of p c k <> None.
+Proof. exact flags_for_every_failure_proof. Qed.
+Print Assumptions C06_flags_for_every_failure.
+
 Theorem C06_min_flag_false_iff : forall c b i,
   coarse_eqb (col_coarse c) (coarse_of (b_value b)) = true ->
   match detect_flags c (CMin (Some b)) with
